@@ -32,7 +32,8 @@ SgnI(x) == IF x < 0 THEN -1 ELSE IF x > 0 THEN 1 ELSE 0
 RECURSIVE Pow(_, _)
 Pow(b, n) == IF n = 0 THEN 1 ELSE b * Pow(b, n - 1)
 FSum(n, f(_))  == LET A[k \in 0..n] == IF k = 0 THEN 0 ELSE A[k - 1] + f(k) IN A[n]
-FMax(n, f(_))  == LET M[k \in 0..n] == IF k = 0 THEN 0 ELSE (IF f(k) > M[k - 1] THEN f(k) ELSE M[k - 1]) IN M[n]
+\* (not "IF f(k) > M[k-1] THEN f(k) ELSE M[k-1]": two recursive references make TLC's evaluation exponential)
+FMax(n, f(_))  == LET V == {f(k) : k \in 1..n} \cup {0} IN CHOOSE x \in V : \A y \in V : y <= x
 IsIntSeq(s, n) == DOMAIN s = 1..n /\ \A k \in 1..n : s[k] \in Int
 IsTens(T) == /\ DOMAIN T.shape = 1..Len(T.shape) /\ \A k \in 1..Len(T.shape) : T.shape[k] \in 1..100000
              /\ IsIntSeq(T.data, Size(T.shape))
